@@ -87,6 +87,15 @@ def emit_stmts(vsc, o, names, stmts):
                 bl = [getattr(o, names[i]) for i in s["before"]]
                 al = [getattr(o, names[i]) for i in s["after"]]
             vsc.solve_order(bl if len(bl) > 1 else bl[0], al if len(al) > 1 else al[0])
+        elif k == "dist":
+            ws = []
+            for w in s["weights"]:
+                wv = emit_expr(vsc, o, names, w["w"])
+                if "single" in w:
+                    ws.append(vsc.weight(emit_expr(vsc, o, names, w["single"]), wv))
+                else:
+                    ws.append(vsc.weight((emit_expr(vsc, o, names, w["lo"]), emit_expr(vsc, o, names, w["hi"])), wv))
+            vsc.dist(emit_expr(vsc, o, names, s["e"]), ws)
         else:
             raise Exception("emit_stmts " + k)
 
